@@ -90,6 +90,34 @@ def run(ctx):
         ctx.hist("dist_N_digits", len(str(job["N"])))
         if info.get("near_tie"):
             ctx.count("near_ties")
+    # ---- the decidable hypotheses of never_early / never_early_round (PlanLatOK false, PlanEarlyOK, StageWF, post-context >= half an
+    #      output period), evaluated by the Lean driver on every exported plan.  Linear-phase plans must satisfy them; for a
+    #      non-linear phase setting the theorem does not apply (the filter is not centred) and the oracle above alone speaks.
+    from checks import c04
+
+    def hyp(x):
+        job, ops, tr, bad, info = x
+        if not tr.plan:
+            return None
+        t, out = c04.plan_time(tr)
+        return job, tr, t
+    known = {f["id"] for f in common.known_active(PID)}
+    for h in cr.pmap(hyp, res):
+        if h is None:
+            continue
+        job, tr, t = h
+        linear = float(job["cfg"].get("phase", 50)) == 50 and not (int(job["cfg"].get("recipe", 4)) & 0x30)
+        if not linear:
+            ctx.count("plans_nonlinear_phase(theorem not applicable)"); continue
+        ctx.count("plans_never_early_hypotheses_checked")
+        if t is None or int(t["lat"]) < 1 or t.get("early") != "1":
+            if [k for k in cr.classify_known(tr.plan, job["cfg"]) if k in known]:
+                continue
+            ctx.violation("hypothesis of never_early fails on a plan of the real planner (PlanLatOK / PlanEarlyOK / StageWF): %s (%s %s); "
+                          "the early-bound oracle found no violating call in this job" % (t, cr.create_line(job["cfg"]), job["env"]),
+                          {"cfg": job["cfg"], "env": job["env"], "plan": tr.plan, "time": t}, no_input=True)
+        elif t.get("post") == "1":
+            ctx.count("plans_with_post_context>=half_output_period(never_early_round applies)")
     ctx.cov["rule"] = ("random (configuration, N, call schedule) jobs: rates/recipes/flags/phases/runtime specs/engines from crcommon.gen_config, "
                        "call sizes around every internal block length of the exported plan; each job runs on the real library and its "
                        "operations are replayed through the Lean count model (every idone/odone, occupancy, clock word, remM, input_size "
